@@ -171,11 +171,13 @@ module F = struct
     let kind = match g 1 with "source" -> NSource | "machine" -> NMachine | "sink" -> NSink
                             | "splitter" -> NSplitter | "combiner" -> NCombiner | k -> failwith k in
     let wcap = int_of_string (g 4) in
-    let nts = match kind with NSource -> 3 | NMachine -> 6 | NSink -> 1 | _ -> 6 in
+    let nts = match kind with NSource -> 3 | NMachine -> 6 | NSink -> 1 | _ -> 4 in
+    let wcap = match kind with NSplitter | NCombiner -> 1 | _ -> wcap in
     { node0 with nk = kind; nsetup = z_of_int (int_of_string (g 2)); nblocking = (g 3 = "1");
       nwcap = nat_of_int wcap; ninsel = policy_of (g 5); noutsel = policy_of (g 6); ndelays = zlist (g 7);
       nins = nlist (g 8); nouts = nlist (g 9); nrecipe = nlist (g 10);
-      ntstate = zeros nts; nocchist = (match kind with NMachine -> zeros (wcap + 1) | _ -> []); nres = res_init (nat_of_int wcap);
+      ntstate = zeros nts; nocchist = (match kind with NMachine | NSplitter | NCombiner -> zeros (wcap + 1) | _ -> []);
+      npallet = (L.length w > 11 && g 11 = "1"); nres = res_init (nat_of_int wcap);
       nlast = (match kind with NSink -> Some Z0 | _ -> None);
       nstate = O }
   let edge_of w =
@@ -199,6 +201,7 @@ module F = struct
     | CValue n -> Printf.sprintf "ValueError@%d" (int_of_nat n)
     | CRuntime n -> Printf.sprintf "RuntimeError@%d" (int_of_nat n)
     | CType n -> Printf.sprintf "TypeError@%d" (int_of_nat n)
+    | CAttr n -> Printf.sprintf "AttributeError@%d" (int_of_nat n)
     | CFuel -> "FUEL"
     | CDoubleSucceed n -> Printf.sprintf "RuntimeError(succeed)@%d" (int_of_nat n)
   let i = int_of_nat and z = int_of_z
@@ -208,6 +211,7 @@ module F = struct
     | LGet (t, e, it, n) -> Printf.printf "T %d %d %d %d\n" (z t) (i e) (i it) (i n)
     | LDiscard (t, n, it) -> Printf.printf "D %d %d %d\n" (z t) (i n) (i it)
     | LRecv (t, n, it) -> Printf.printf "R %d %d %d\n" (z t) (i n) (i it)
+    | LPack (t, n, pal, it) -> Printf.printf "K %d %d %d %d\n" (z t) (i n) (i pal) (i it)
     | LSel (n, o, idx) -> Printf.printf "S %d %d %d\n" (i n) (if o then 1 else 0) (i idx)
     | LDraw (n, wh, v) -> Printf.printf "W %d %d %d\n" (i n) (i wh) (z v)
   let case hdr lines =
